@@ -2,6 +2,8 @@
 package xprotocol
 
 import (
+	"mosn.io/pkg/variable"
+	"context"
 	"mosn.io/api"
 	v2 "mosn.io/mosn/pkg/config/v2"
 	"mosn.io/mosn/pkg/protocol/xprotocol"
@@ -161,4 +163,95 @@ func VerifC10_MultiplexPool() {
 func VerifC09_MultiplexPool() {
 	VerifC10_MultiplexPool()
 	verif.Cover("multiplex")
+}
+
+// VerifC09_MultiplexTwoSlots: the multiplex pool with max_connections = 2 (two
+// shared connections, requests spread over them by the pool index of the
+// downstream context). Both slots are initialised, then the peer closes the
+// connection of one slot (either one), optionally with a request in flight on
+// it. Afterwards: the other slot still serves requests on its own, still open
+// connection; the closed connection is never handed out again - a request for
+// that slot is refused until the slot has reconnected, and then travels on a
+// fresh connection; no connection that is still open was dropped from the pool
+// (the host has created exactly one new connection, for the closed slot).
+func VerifC09_MultiplexTwoSlots() {
+	xprotocol.RegisterXProtocolAction(NewConnPool, NewStreamFactory, func(api.XProtocolCodec) {})
+	_ = xprotocol.RegisterXProtocolCodec(&bolt.XCodec{})
+	info := &zzPInfo{rm: cluster.NewResourceManager(v2.CircuitBreakers{Thresholds: []v2.Thresholds{{MaxConnections: 2}}}), st: zzPClusterStats()}
+	host := &zzLHost{zzPHost: zzPHost{info: info, hs: zzPHostStats()}}
+	base := &connpool{protocol: bolt.ProtocolName, codec: zzNoHBCodec{&bolt.XCodec{}}}
+	base.host.Store(types.Host(host))
+	pool := NewPoolMultiplex(base).(*poolMultiplex)
+	verif.Assert(len(pool.activeClients) == 2, "max_connections = 2 must give two slots")
+	// one downstream context per slot (the first CheckAndInit of a context draws the slot)
+	ctxs := []context.Context{zzStreamCtx(), zzStreamCtx()}
+	slotConn := map[int64]*zzLConn{}
+	ctxOf := map[int64]context.Context{}
+	for _, ctx := range ctxs {
+		if !pool.CheckAndInit(ctx) {
+			verif.Settle()
+			verif.Assert(pool.CheckAndInit(ctx), "a slot did not become ready after its connection was established")
+		}
+		v, _ := variable.Get(ctx, types.VariableConnectionPoolIndex)
+		idx := v.(int64)
+		_, sender, _ := pool.NewStream(ctx, &zzLRecv{})
+		verif.Assert(sender != nil, "a ready slot refused a request")
+		if sender == nil {
+			return
+		}
+		c, _ := sender.(*xStream).sc.netConn.(*zzLConn)
+		sender.GetStream().ResetStream(types.StreamLocalReset) // the probe request is given up at once
+		slotConn[idx] = c
+		ctxOf[idx] = ctx
+	}
+	verif.Assert(len(slotConn) == 2 && slotConn[0] != slotConn[1] && len(host.conns) == 2, "the two slots do not hold two distinct connections")
+	if len(slotConn) != 2 {
+		return
+	}
+	victim := int64(verif.Choose("closed_slot", 2))
+	other := 1 - victim
+	ls := &zzLListener{}
+	if verif.Choose("request_in_flight", 2) == 1 {
+		_, sender, _ := pool.NewStream(ctxOf[victim], &zzLRecv{})
+		if sender != nil {
+			sender.GetStream().AddEventListener(ls)
+			req := bolt.NewRpcRequest(0, zzHdr{"service": "s"}, buffer.NewIoBufferBytes([]byte("b")))
+			_ = sender.AppendHeaders(ctxOf[victim], req, true)
+		}
+	}
+	verif.MustFinish(200000, "the close event of the connection is never handled to the end")
+	slotConn[victim].Close(api.NoFlush, api.RemoteClose)
+	verif.Finished()
+	// the untouched slot keeps serving on its own connection
+	_, s2, _ := pool.NewStream(ctxOf[other], &zzLRecv{})
+	verif.Assert(s2 != nil, "the slot whose connection is still open refuses requests after the other slot's connection closed")
+	if s2 != nil {
+		c, _ := s2.(*xStream).sc.netConn.(*zzLConn)
+		verif.Assert(c == slotConn[other] && !c.closed, "the healthy slot does not serve on its own open connection any more (it was dropped from the pool with the closed one)")
+		s2.GetStream().ResetStream(types.StreamLocalReset)
+	}
+	// the closed slot: never the closed connection again
+	_, s3, _ := pool.NewStream(ctxOf[victim], &zzLRecv{})
+	if s3 != nil {
+		c, _ := s3.(*xStream).sc.netConn.(*zzLConn)
+		verif.Assert(c != slotConn[victim] && c != nil && !c.closed, "a request was put on the connection the peer closed")
+		s3.GetStream().ResetStream(types.StreamLocalReset)
+	} else {
+		// not reconnected yet: CheckAndInit starts it, then the slot serves on a fresh connection
+		if !pool.CheckAndInit(ctxOf[victim]) {
+			verif.Settle()
+		}
+		verif.Assert(pool.CheckAndInit(ctxOf[victim]), "the slot whose connection closed never becomes ready again")
+		_, s4, _ := pool.NewStream(ctxOf[victim], &zzLRecv{})
+		verif.Assert(s4 != nil, "the reconnected slot refuses requests")
+		if s4 != nil {
+			c, _ := s4.(*xStream).sc.netConn.(*zzLConn)
+			verif.Assert(c != slotConn[victim] && c != nil && !c.closed, "a request was put on the connection the peer closed")
+			s4.GetStream().ResetStream(types.StreamLocalReset)
+		}
+		verif.Cover("reconnected")
+	}
+	verif.Assert(len(host.conns) <= 3, "more than one new connection was dialled for one closed connection (an open connection was dropped from the pool)")
+	verif.Assert(host.hs.UpstreamConnectionActive.Count() == 2 || len(host.conns) == 2, "UpstreamConnectionActive differs from the number of open connections")
+	verif.Cover("end")
 }
